@@ -491,3 +491,71 @@ def collection_sources(model, prop="*"):
                            and norm(c_.args[0]).endswith(".values()") for c_ in ast.walk(r.value))
             out.append((kind, r, by_key and not (kind == "isMap" and by_value), t, by_value))
     return out
+
+
+def numeric_order_not_textual(ctx, model, prop, rule):
+    """ValueInt / ValueDecimal.__lt__: a path that orders the operands by their rendering (str / repr) is taken only
+    when the other operand is known NOT to be numerical.  `2.5 < 10` decided on the texts '2.5' and '10' is false."""
+    for cname in ("ValueInt", "ValueDecimal"):
+        lt = model.method(prop, cname, "__lt__")
+        other = lt.params[1] if len(lt.params) > 1 else "other"
+        dl = decision_list(lt.node)
+        if dl is None:
+            ctx.broken(f"{cname}.__lt__", "not a decision list (loops / too many paths)")
+        bad = None
+        for f, r in dl:
+            rendered = any(isinstance(n, ast.Call) and norm(n.func) in ("str", "repr", "format") for n in ast.walk(r))
+            if not rendered:
+                continue
+            nonnum = (f"{other}.isNumerical()", False) in f or \
+                ((f"isinstance({other}, ValueInt)", False) in f and (f"isinstance({other}, ValueDecimal)", False) in f) \
+                or (f"isinstance({other}, (ValueInt, ValueDecimal))", False) in f \
+                or (f"isinstance({other}, (ValueDecimal, ValueInt))", False) in f
+            if not nonnum:
+                bad = r
+        ctx.check(rule, lt, bad, bad is None,
+                  f"{cname}.__lt__ can order a numerical operand by the rendered texts "
+                  f"(`{norm(bad) if bad is not None else ''}` is reached without `{other}` being known non-numerical): "
+                  f"int and decimal compare by value whichever side they are on (2.5 < 10)",
+                  expr=f"{cname}.__lt__ numeric vs text", site=f"{cname}.__lt__: text order only for non-numerical operands")
+
+
+def ckl_returns_collection_param(ctx, model, rule, why):
+    """Library code written in the language: a function that treats a parameter as a collection (iterates it with
+    `for .. in <p>`, or tests it with is_list / is_set / is_map / is_object) never hands that very parameter back with
+    `return <p>`: the other ways out build a new value, so on this one the result would BE the caller's container."""
+    from .. import cklsrc
+    n = 0
+    for fn, (src, _) in sorted(model.ckl_modules.items()):
+        try:
+            toks = cklsrc.tokenize(src)
+            funcs = cklsrc.functions(toks)
+        except cklsrc.CklTokenError as e:
+            ctx.broken(f"modules/{fn}", str(e))
+        for f in funcs:
+            b = cklsrc.own_body(f)
+            coll = set()
+            for i, t in enumerate(b):
+                if t.is_id("in") and i + 1 < len(b) and b[i + 1].kind == "id" and b[i + 1].text in f.params \
+                        and any(x.is_id("for") for x in b[max(0, i - 6):i]):
+                    coll.add(b[i + 1].text)
+                if t.kind == "id" and t.text in ("is_list", "is_set", "is_map", "is_object") and i + 3 < len(b) \
+                        and b[i + 1].is_p("(") and b[i + 2].kind == "id" and b[i + 2].text in f.params \
+                        and b[i + 3].is_p(")"):
+                    coll.add(b[i + 2].text)
+            if not coll:
+                continue
+            n += 1
+            bad = None
+            for i, t in enumerate(b):
+                if t.is_id("return") and i + 1 < len(b) and b[i + 1].kind == "id" and b[i + 1].text in coll \
+                        and (i + 2 >= len(b) or b[i + 2].text in (";", "end", "else", "elif")):
+                    bad = b[i + 1]
+            ctx.ob(rule, f"modules/{fn}: {f.qual}: collection parameter(s) {sorted(coll)} never returned as the result",
+                   bad is None)
+            if bad is not None:
+                ctx.fail(rule, f"modules/{fn}:{f.qual}", None,
+                         f"{f.qual} returns its collection parameter `{bad.text}` itself on one way out: {why}",
+                         expr=f"{f.qual}: return {bad.text}", file=f"src/ckl/modules/{fn}", line=bad.line)
+    if n < 15:
+        ctx.broken(rule, f"only {n} library functions with collection parameters found")
